@@ -4,7 +4,7 @@
 (* explicit parenthesis nodes — in particular the trees that parsing never produces (a quotient  *)
 (* whose denominator is a plain product, a power of a power, ...).  TLC enumerates the set and    *)
 (* serialises it as JSON for the harness.                                                         *)
-EXTENDS Naturals, Sequences, FiniteSets, TLC, Json, IOUtils, SequencesExt
+EXTENDS Integers, Sequences, FiniteSets, TLC, Json, IOUtils, SequencesExt
 
 Var(n) == [k |-> "var", name |-> n]
 IntL(v) == [k |-> "int", v |-> v]
@@ -21,7 +21,12 @@ U1 == {Bin(k, x, y) : k \in BinOps, x \in Leaves0, y \in Leaves0}
 P1 == U1 \cup {Un("par", x) : x \in U1}
 Operands == P1 \cup Leaves0
 U2 == {Bin(k, x, y) : k \in BinOps, x \in Operands, y \in Operands} \cup {Un("neg", x) : x \in P1}
-Universe == U1 \cup U2 \cup Leaves
+\* flattened products with a leading constant -1 (what operator overloading / flattening builds:
+\* -a * (b / c)  ->  Product((-1, a, Quotient(b, c)))); "raw" marks the bare python constant
+MinusOne == [k |-> "int", v |-> -1, raw |-> TRUE]
+U3 == {[k |-> "prod", c |-> <<MinusOne, x, y>>] : x \in Leaves0, y \in Operands}
+      \cup {[k |-> "prod", c |-> <<MinusOne, y, x>>] : x \in Leaves0, y \in Operands}
+Universe == U1 \cup U2 \cup U3 \cup Leaves
 
 ASSUME PrintT(<<"UNIVERSE", Cardinality(U1), Cardinality(U2), Cardinality(Universe)>>)
 ASSUME JsonSerialize(IOEnv.OUT, SetToSeq(Universe))
